@@ -44,6 +44,9 @@ pub fn handle(ctx: &mut KbdCtx, cmd: &str, req: &Value) -> Result<Value, String>
             if let Some(a) = req.get("active_high").and_then(|p| p.as_bool()) {
                 kb.set_columns_active_high(a);
             }
+            if let Some(r) = req.get("repeat").and_then(|p| p.as_bool()) {
+                kb.set_repeat_enabled(r);
+            }
             ctx.kb_irq = req.get("kb_irq").and_then(|p| p.as_bool()).unwrap_or(true);
             ctx.kb = Some(kb);
             ctx.mem = Some(MemoryImage::new());
